@@ -60,6 +60,18 @@ func (d *Document) PrintDescription(description Description, indent []byte, dept
 		case runes.LINETERMINATOR:
 			skipWhitespace = true
 			skippedBytes = 0
+		case runes.CARRIAGERETURN:
+			if i+1 < len(content) && content[i+1] == runes.LINETERMINATOR {
+				// first half of \r\n
+				break
+			}
+			// a lone carriage return terminates a line as well (the common indent is computed that way);
+			// it is written as a line feed, so that stripping the indent of a following blank line
+			// can not fuse the two terminators into one \r\n
+			skipWhitespace = true
+			skippedBytes = 0
+			_, err = writer.Write(literal.LINETERMINATOR)
+			continue
 		default:
 			if skipWhitespace {
 				for j := 0; j < depth; j++ {
